@@ -230,6 +230,22 @@ pub fn explore(args: &Args, s: &mut Summary) {
         };
         run(&bytes, "noise", s);
     }
+    // (2b) freshly generated hostile maps (old format versions included: some encoder paths depend on the version),
+    //      small so that decode + encode + decode stays cheap
+    for k in 0..iters / 4 {
+        let mut o = GenOpts::hostile();
+        o.mode = Some((k % 4) as u8);
+        o.objects = 2 + rng.below(6);
+        o.timing_lines = 1 + rng.below(6);
+        let mut t = gen_map(&mut rng, &o);
+        if k % 2 == 0 {
+            // an old version header
+            if let Some(nl) = t.find('\n') {
+                t = format!("osu file format v{}{}", *rng.pick(&[3, 4, 5, 6, 7]), &t[nl..]);
+            }
+        }
+        run(t.as_bytes(), "generated-hostile", s);
+    }
     // (3) mutations and splices
     for _ in 0..iters {
         let a = rng.below(corpus.len());
